@@ -235,6 +235,12 @@ CHECKS = [
      "text": "Bounded verification: for every crash point of the run the restarted run finishes and returns the bit-identical final "
              "samples and mean (strategy 'all': holds after fix 728a40a; strategy 'latest': known findings, in-place overwrite).",
      "design_ref": "DESIGN.md 4/C25"},
+    {"property_id": "C24", "engine": "B", "category": "other", "technique": "crash-point exploration of the real nifty.re optimize_kl: the index of the file-system mutation at which the run is killed and the kill variant are z3 integers concretised by solver-decided forking; each path executes the real run, kills it (vf.crash), restarts it with resume=True and compares samples and optimisation state with the uninterrupted run",
+     "note": "Concrete float64 runs (the solver explores the crash-point space only). Bounds: 3 iterations, 2 keys, sample modes linear_resample (quick), nonlinear_resample / nonlinear_update (thorough), jit off, one crash per history.",
+     "text": "Bounded verification: for every crash point of the run (before each open-for-write / replace below odir and after each "
+             "create/truncate) the restarted run finishes and returns bit-identical position and residuals, the same iteration counter "
+             "and PRNG key (holds after fix 700b56c: last.pkl is replaced atomically).",
+     "design_ref": "DESIGN.md 4/C24"},
 ]
 
 ALL = [f"C{i:02d}" for i in range(1, 37)]
